@@ -33,7 +33,8 @@ def make_cases(tier, profile):
     late = []   # records with nick and user name but unauthenticated: reachable only after a mask mismatch
     for p in ('goodpw', 'userpw', 'badpw'):
         late.append((dict(nick='dave', name='cfguser', caps_negotation=False), 'PASS ' + p))
-    steps += [(dict(nick='dave', name='dave'), 'CAP LS 302'), (dict(nick='dave'), 'CAP LS'), (dict(), 'CAP REQ :multi-prefix'), (dict(nick='dave', name='dave', caps_negotation=True), 'CAP REQ :bogus'),
+    steps += [(dict(), 'CAP REQ :bogus'), (dict(nick='dave'), 'CAP REQ :sasl'), (dict(name='dave'), 'CAP REQ :multi-prefix bogus'), (dict(), 'CAP REQ'), (dict(nick='dave'), 'CAP REQ :'),
+              (dict(nick='dave', name='dave'), 'CAP LS 302'), (dict(nick='dave'), 'CAP LS'), (dict(), 'CAP REQ :multi-prefix'), (dict(nick='dave', name='dave', caps_negotation=True), 'CAP REQ :bogus'),
               (dict(nick='dave', caps_negotation=True), 'USER dave 0 * :Real'), (dict(), 'NICK dave'), (dict(), 'USER dave 0 * :Real'), (dict(), 'PASS goodpw'), (dict(nick='dave'), 'QUIT'),
               (dict(), 'AUTHENTICATE PLAIN'), (dict(nick='dave', name='dave', caps_negotation=True), 'CAP LIST'), (dict(), 'NICK #bad'), (dict(nick='dave'), 'USER #bad 0 * :x')]
     for cfg in cfgs:
